@@ -13,7 +13,7 @@ from ..model import dims as M
 from ..model import sat as SAT
 
 LEVEL = "exploration"
-TECHNIQUE = "runtime monitoring: the eager call on concrete arrays is the specification; each generated decorated function is also run under jit, vmap (random in_axes), grad, eval_shape and their compositions with tracers carrying the same shapes/dtypes; a spy on Tracer.__bool__/__array__/__int__/__index__/__float__ counts forced concretisations during checking; value-independence checked with zeros/random/nan/inf; functions mutating a container argument, TypeVar array types with mixed tracers, weakly typed values, decorated dataclasses handed to transformations"
+TECHNIQUE = "runtime monitoring: the eager call on concrete arrays is the specification; each generated decorated function is also run under jit, vmap (random in_axes), grad, eval_shape and their compositions with tracers carrying the same shapes/dtypes; a spy on Tracer.__bool__/__array__/__int__/__index__/__float__ counts forced concretisations during checking; value-independence checked with zeros/random/nan/inf; functions mutating a container argument, TypeVar array types with mixed tracers, weakly typed values, decorated dataclasses handed to transformations; symbolic axes over static attributes of array arguments ({x.ndim}, {x.shape[0]}, {len(x)}, {x.size})"
 LEVEL_TEXT = (
     "Held on every generated function x transformation explored (hundreds of functions x 7 transformations x 2 "
     "typecheckers; satisfiable and unsatisfiable argument tuples, PyTree arguments). Sampling, not proof."
